@@ -160,7 +160,7 @@ var selQ = url.QueryEscape("SELECT COUNT(*), MAX(tok) FROM oplog")
 
 var kinds = []kind{
 	{Name: "execute", Method: "POST", Path: "/db/execute?raft_index", Perms: []string{"execute"}, Write: true, MinDelta: 1, MaxDelta: 1},
-	{Name: "execute-queued", Method: "POST", Path: "/db/execute?queue&wait&timeout=6s", Perms: []string{"execute"}, Write: true, MinDelta: 1, MaxDelta: 1, Last: true},
+	{Name: "execute-queued", Method: "POST", Path: "/db/execute?queue&wait&timeout=8s", Perms: []string{"execute"}, Write: true, MinDelta: 1, MaxDelta: 1, Last: true},
 	{Name: "query-strong", Method: "GET", Path: "/db/query?level=strong&raft_index&q=" + selQ, Perms: []string{"query"}, Read: true, MinDelta: 1, MaxDelta: 1},
 	{Name: "query-linearizable", Method: "GET", Path: "/db/query?level=linearizable&q=" + selQ, Perms: []string{"query"}, Read: true, MinDelta: 0, MaxDelta: 1},
 	{Name: "query-weak", Method: "GET", Path: "/db/query?level=weak&q=" + selQ, Perms: []string{"query"}, Read: true},
@@ -852,6 +852,34 @@ func (e *env) doRequest(idx int, phase string, jb job, cut bool) (o obs) {
 			}
 		}
 		return
+	}
+
+	// A queued write whose wait timed out: unless the leader is seen refusing it, give
+	// it time -- on a loaded machine the flush can simply be late.
+	if K == "execute-queued" && r.Status == 408 {
+		refused := false
+		for _, c := range o.LeaderAA {
+			if !c.OK && !atLeader {
+				refused = true
+			}
+		}
+		if !refused {
+			for t0 := time.Now(); time.Since(t0) < 30*time.Second && o.Applied == 0; time.Sleep(100 * time.Millisecond) {
+				o.Applied = tokRows(ld, o.Token)
+				for _, c := range e.rec.since(mark) {
+					if c.Node == ld.Name && c.Surface == "cluster" && !c.OK && !atLeader {
+						refused = true
+					}
+				}
+				if refused {
+					break
+				}
+			}
+			if !refused {
+				o.Inconcl = fmt.Sprintf("queued write: wait timed out (408) without the leader refusing it; token rows on leader afterwards: %d", o.Applied)
+				return
+			}
+		}
 	}
 
 	// ---- whose credentials the leader's inter-node service was asked about ----
